@@ -27,6 +27,7 @@ def run(rec):
     for netname, sd in structures(rec.tier, rec.seed):
         items += [(netname, sd, "gillespie"), (netname, sd, "tauleap")]
     rec.parallel(_work, items, item_budget_s=240 if rec.tier == "quick" else 900)
+    py_units_leg(rec)
 
 
 def _work(rec, item):
@@ -36,3 +37,24 @@ def _work(rec, item):
         gillespie_stage2(rec, facts, netname, sd)
     else:
         tauleap_step(rec, netname, sd)
+
+
+def py_units_leg(rec):
+    """The propensities the engines compute are 'combinatorial counts x volume-scaled constants' of the numbers they RECEIVE: the rate
+    constants, volumes and diffusion coefficients handed to a stochastic engine must be the model's, expressed per molecule, whatever
+    units the script is written or reported in (the engine legs above run in default units)."""
+    from .. import pysym
+    text = '''from harness.c04lib import *
+
+
+def h_stoch_abi_units(lv: int, u: int, eu: int, opt: int, ex: int, g: int) -> bool:
+    """
+    pre: 0 <= lv <= 4 and 0 <= u <= 10 and eu == (u * 3 + lv + 1) % 11 and 1 <= opt <= 2 and ex == (u + lv) % 3 and 0 <= g <= 1
+    post: _
+    """
+    return abi_invariance(lv, u, eu, opt, ex, g)
+'''
+    mod = pysym.write_module("hgen_C07", text)
+    pysym.run_auto(rec, mod, [{"fn": "h_stoch_abi_units", "what": "what reaches a stochastic engine (state in molecules, volumes, rate constants of orders 1 and 2 per molecule, D, times), re-expressed in SI, does not depend on the units "
+                               "the model is written in nor on the output units system (11 systems x nesting level x tau-leap / Gillespie x grid / graph)", "sig": "c07-abi-units", "structure": "marshalling",
+                               "viol": "a stochastic engine receives rate constants / amounts that are not the model's per-molecule values: propensities are off by a units factor"}])
